@@ -264,22 +264,59 @@ def check_case(case, acc):
         acc.case(f, "raises", sample=False)
         acc.violation("design-exists", exc_sig(e), case, f"{f!r} raised {type(e).__name__}: {e}")
         return
-    R = reference(case, df)
-    try:
-        ok, rep = linalg.same_span(X, R)
-    except linalg.Undecided as e:
+    verdict = decide(f, case, df, X)
+    if verdict == "undecided":
         acc.undecided += 1
         acc.case(f, "undecided", sample=False)
         return
-    if rep["rank_x"] != rep["ncol"]:
-        acc.case(f, "rank-deficient", sample=False)
-        acc.violation("full-column-rank", "rank-loss", case, f"{f!r}: {rep['ncol']} columns of rank {rep['rank_x']} (model space has dimension {rep['rank_r']})")
-        return
-    if not ok:
-        acc.case(f, "wrong-span", sample=False)
-        acc.violation("spans-model-space", "span", case, f"{f!r}: column space has dimension {rep['rank_x']}, model space {rep['rank_r']}, joint {rep['rank_both']}")
+    if verdict is None:
+        # not from the initial state either: the design evaluated a later frame with fewer levels, then a design is built on
+        # that very frame (every factor with three or more levels loses its last one)
+        keep = np.ones(len(df), dtype=bool)
+        for name in case["lv"]:
+            lvls = sorted(set(df[name].tolist()))
+            if len(lvls) >= 3:
+                keep &= (df[name] != lvls[-1]).to_numpy()
+        buildable = False
+        if not keep.all() and keep.sum() >= 4:
+            later = df[keep].reset_index(drop=True)
+            try:  # a formula naming the removed level (T(f, ref='fc')) is rightly refused on that frame: not compared
+                pristine = design_matrices(f, later.copy())
+                buildable = np.asarray(pristine.common.design_matrix).shape[1] < len(later)  # else the frame is saturated: no full rank possible
+            except Exception:
+                acc.bulk(1, "later-frame-refused")
+        if buildable:
+            acc.calls += 3
+            try:
+                dm.common.evaluate_new_data(later)
+            except Exception:
+                pass
+            try:
+                X2 = np.asarray(design_matrices(f, later).common.design_matrix, dtype=float)
+                v2 = decide(f, case, later, X2)
+            except Exception as e:
+                v2 = ("design-exists", exc_sig(e), f"raised {type(e).__name__}: {e}")
+            if v2 not in (None, "undecided"):
+                verdict = (v2[0], v2[1], "on the frame of the remaining levels, after the first design evaluated that frame as new data: " + v2[2])
+    if verdict is not None:
+        acc.case(f, verdict[0], sample=False)
+        acc.violation(verdict[0], verdict[1], case, f"{f!r}: {verdict[2]}")
         return
     acc.case([f, case["lv"], case.get("reps", 2), case.get("sub")], "ok", nontrivial=nontrivial(case))
+
+
+def decide(f, case, df, X):
+    """None when X has full column rank and spans the model space on df; 'undecided'; or (clause, sig, message)."""
+    R = reference(case, df)
+    try:
+        ok, rep = linalg.same_span(X, R)
+    except linalg.Undecided:
+        return "undecided"
+    if rep["rank_x"] != rep["ncol"]:
+        return ("full-column-rank", "rank-loss", f"{rep['ncol']} columns of rank {rep['rank_x']} (model space has dimension {rep['rank_r']})")
+    if not ok:
+        return ("spans-model-space", "span", f"column space has dimension {rep['rank_x']}, model space {rep['rank_r']}, joint {rep['rank_both']}")
+    return None
 
 
 def classify(case, clause, sig, detail):
